@@ -878,69 +878,125 @@ func c15ValidateText(cf *c15File, sec *c15Sec) (string, error) {
 	return b.String(), nil
 }
 
+// the analysis of one section (JSON struct, load walk, defaults, save walk), shared by the generators of
+// Gen/ConfigSchemas.v and Gen/ConfigValidators.v
+type c15Sect struct {
+	cf       *c15File
+	w        *c15Walker
+	defs     map[string]c15Val
+	afd, sfd *ast.FuncDecl
+}
+
+var c15FileCache = map[string]*c15File{}
+var c15SectCache = map[string]*c15Sect{}
+
+func c15Analyse(repo string, sec *c15Sec) (*c15Sect, error) {
+	key := repo + "|" + sec.name
+	if r, ok := c15SectCache[key]; ok {
+		return r, nil
+	}
+	path := filepath.Join(repo, sec.dir, sec.file)
+	cf := c15FileCache[path]
+	if cf == nil {
+		var err error
+		cf, err = c15Load(path)
+		if err != nil {
+			return nil, err
+		}
+		c15FileCache[path] = cf
+	}
+	r, err := c15AnalyseFile(repo, sec, cf)
+	if err != nil {
+		return nil, err
+	}
+	c15SectCache[key] = r
+	return r, nil
+}
+
+func c15AnalyseFile(repo string, sec *c15Sec, cf *c15File) (*c15Sect, error) {
+	w := &c15Walker{cf: cf, sec: sec, byGo: map[string]*c15JField{}, byPath: map[string]*c15JField{},
+		alias: map[string]*c15Alias{}, durFuncs: map[string]bool{}, resets: map[string]string{}}
+	if err := cf.flatten(sec.jsonType, "", "", "", &w.fields); err != nil {
+		return nil, fmt.Errorf("%s: %v", sec.name, err)
+	}
+	for _, jf := range w.fields {
+		w.byGo[jf.gosel] = jf
+		w.byPath[jf.path] = jf
+	}
+	afd := cf.funcs[sec.cfgType+"."+sec.applyFn]
+	if afd == nil {
+		return nil, fmt.Errorf("%s: %s.%s not found", sec.name, sec.cfgType, sec.applyFn)
+	}
+	w.walkFunc(afd, true)
+	if len(w.errs) > 0 {
+		return nil, fmt.Errorf("%s: %s", sec.name, strings.Join(w.errs, "; "))
+	}
+	defs, derrs := c15Defaults(cf, sec, repo)
+	if len(derrs) > 0 {
+		return nil, fmt.Errorf("%s: defaults: %s", sec.name, strings.Join(derrs, "; "))
+	}
+	sfd := cf.funcs[sec.cfgType+"."+sec.saveFn]
+	if sfd == nil {
+		return nil, fmt.Errorf("%s: %s.%s not found", sec.name, sec.cfgType, sec.saveFn)
+	}
+	sv := &c15Saver{cf: cf, sec: sec, w: w, jvars: map[string]string{}, cvar: c15Recv(sfd), locals: map[string]string{},
+		marsh: map[string]string{}, defs: defs, ev: &c15Eval{cf: cf, locals: map[string]c15Val{}, repo: repo}}
+	// named results: (jcfg *jsonConfig, err error)
+	if sfd.Type.Results != nil {
+		for _, r := range sfd.Type.Results.List {
+			if c15TypeName(r.Type) == sec.jsonType {
+				for _, n := range r.Names {
+					sv.jvars[n.Name] = ""
+				}
+			}
+		}
+	}
+	sv.walk(sfd.Body.List, "SAlways")
+	// return &jsonConfig{...}
+	for _, s := range sfd.Body.List {
+		if rs, ok := s.(*ast.ReturnStmt); ok && len(rs.Results) >= 1 {
+			if cl := c15Lit(rs.Results[0]); cl != nil && c15TypeName(cl.Type) == sec.jsonType {
+				sv.literal(cl, "", "SAlways")
+			}
+		}
+	}
+	return &c15Sect{cf: cf, w: w, defs: defs, afd: afd, sfd: sfd}, nil
+}
+
+// the load rule (Coq term) and kind a member ends up with in the table
+func c15FinalRule(sec *c15Sec, jf *c15JField) (lrule, kind string) {
+	id := sec.name + "." + jf.path
+	lrule = jf.lrule
+	if jf.custom {
+		lrule = "(LCustom " + coqStr(id) + ")"
+		if jf.parent != "" {
+			lrule = "(LCustom " + coqStr(id+"/in-group") + ")" // customs inside a pointer group are never transcribed
+		}
+	} else if lrule == "" {
+		if jf.mentioned {
+			lrule = "(LCustom " + coqStr(id) + ")"
+		} else {
+			lrule = "LNever"
+		}
+	}
+	return lrule, c15KindFor(jf, lrule)
+}
+
 func genConfigSchemas(repo string) (string, error) {
 	var b strings.Builder
 	b.WriteString("(* GENERATED by tools/gen/configschemas*.go from the component config.go files at every check run. Do not edit. *)\n")
 	b.WriteString("From Coq Require Import String List ZArith NArith.\nFrom V Require Import Model.C15_Config.\nImport ListNotations.\nOpen Scope string_scope.\nOpen Scope Z_scope.\n\n")
 	var names []string
-	files := map[string]*c15File{}
 	for i := range c15Sections {
 		sec := &c15Sections[i]
-		path := filepath.Join(repo, sec.dir, sec.file)
-		cf := files[path]
-		if cf == nil {
-			var err error
-			cf, err = c15Load(path)
-			if err != nil {
-				return "", err
-			}
-			files[path] = cf
+		an, err := c15Analyse(repo, sec)
+		if err != nil {
+			return "", err
 		}
-		w := &c15Walker{cf: cf, sec: sec, byGo: map[string]*c15JField{}, byPath: map[string]*c15JField{},
-			alias: map[string]*c15Alias{}, durFuncs: map[string]bool{}, resets: map[string]string{}}
-		if err := cf.flatten(sec.jsonType, "", "", "", &w.fields); err != nil {
-			return "", fmt.Errorf("%s: %v", sec.name, err)
-		}
-		for _, jf := range w.fields {
-			w.byGo[jf.gosel] = jf
-			w.byPath[jf.path] = jf
-		}
-		afd := cf.funcs[sec.cfgType+"."+sec.applyFn]
-		if afd == nil {
-			return "", fmt.Errorf("%s: %s.%s not found", sec.name, sec.cfgType, sec.applyFn)
-		}
-		w.walkFunc(afd, true)
-		if len(w.errs) > 0 {
-			return "", fmt.Errorf("%s: %s", sec.name, strings.Join(w.errs, "; "))
-		}
-		defs, derrs := c15Defaults(cf, sec, repo)
-		if len(derrs) > 0 {
-			return "", fmt.Errorf("%s: defaults: %s", sec.name, strings.Join(derrs, "; "))
-		}
-		sfd := cf.funcs[sec.cfgType+"."+sec.saveFn]
-		if sfd == nil {
-			return "", fmt.Errorf("%s: %s.%s not found", sec.name, sec.cfgType, sec.saveFn)
-		}
-		sv := &c15Saver{cf: cf, sec: sec, w: w, jvars: map[string]string{}, cvar: c15Recv(sfd), locals: map[string]string{},
-			marsh: map[string]string{}, defs: defs, ev: &c15Eval{cf: cf, locals: map[string]c15Val{}, repo: repo}}
-		// named results: (jcfg *jsonConfig, err error)
-		if sfd.Type.Results != nil {
-			for _, r := range sfd.Type.Results.List {
-				if c15TypeName(r.Type) == sec.jsonType {
-					for _, n := range r.Names {
-						sv.jvars[n.Name] = ""
-					}
-				}
-			}
-		}
-		sv.walk(sfd.Body.List, "SAlways")
-		// return &jsonConfig{...}
-		for _, s := range sfd.Body.List {
-			if rs, ok := s.(*ast.ReturnStmt); ok && len(rs.Results) >= 1 {
-				if cl := c15Lit(rs.Results[0]); cl != nil && c15TypeName(cl.Type) == sec.jsonType {
-					sv.literal(cl, "", "SAlways")
-				}
-			}
+		cf, w, defs, afd, sfd := an.cf, an.w, an.defs, an.afd, an.sfd
+		customTr, err := c15TranslateCustoms(repo, sec)
+		if err != nil {
+			return "", err
 		}
 		vtxt, err := c15ValidateText(cf, sec)
 		if err != nil {
@@ -978,22 +1034,12 @@ func genConfigSchemas(repo string) (string, error) {
 		var rows []string
 		for _, jf := range fs {
 			id := sec.name + "." + jf.path
-			lrule := jf.lrule
+			lrule, kind := c15FinalRule(sec, jf)
 			if jf.custom {
-				lrule = "(LCustom " + coqStr(id) + ")"
 				customs[id] = c15Hash(cf.text(cf.funcs[jf.customFn]))
-				if jf.parent != "" {
-					lrule = "(LCustom " + coqStr(id+"/in-group") + ")" // customs inside a pointer group are never transcribed
-				}
-			} else if lrule == "" {
-				if jf.mentioned {
-					lrule = "(LCustom " + coqStr(id) + ")"
-					customs[id] = c15Hash(cf.text(afd))
-				} else {
-					lrule = "LNever"
-				}
+			} else if jf.lrule == "" && jf.mentioned {
+				customs[id] = c15Hash(cf.text(afd))
 			}
-			kind := c15KindFor(jf, lrule)
 			srule := jf.srule
 			if srule == "" {
 				srule = "SNever"
@@ -1007,6 +1053,8 @@ func genConfigSchemas(repo string) (string, error) {
 				cp = jf.scfg
 			}
 			switch {
+			case customTr.defs[id] != "":
+				def = customTr.defs[id]
 			case c15CustomDefaults[id] != "":
 				def = "(" + c15CustomDefaults[id] + ")"
 			case jf.kind == "KGroup":
